@@ -407,7 +407,7 @@ RULE_ADDENDA = {
     'C09': "Also: the over-the-limit payload class is drawn in 1 of 8 quick-tier cases. The over-the-limit string class also comes as 21,846 three-byte characters (over 65,535 bytes, under 65,535 characters).",
     'C10': "Also: reader states skipping-dup-big (discarding the payload of a retransmitted exactly-once message larger than the "
            "read buffer, tail outstanding) and holding-big-tail-outstanding; failure 'silence' (nothing but PauseTimeout); in state handshake the broker may stay silent for good. Extra "
-           "invariant: once ReadSlices reported an error while reading from a connection, no later ReadSlices reads from it. Reader state connack-arrives-under-slow-save (a persisted publish is inside a parked Persistence.Save when the CONNACK is released). mid-packet-stall prefixes also end inside the remaining-length bytes. Behind the recording Persistence double sits, per case, its own map (5 in 8), the library's in-memory map (2 in 8) or mqtt.FileSystem on a scratch directory (1 in 8). One case in five runs on a session made the way VolatileSession makes it (the library's map, no checksum layer). Failed connects include Dialer errors which wrap context.Canceled / context.DeadlineExceeded.",
+           "invariant: once ReadSlices reported an error while reading from a connection, no later ReadSlices reads from it. Reader state connack-arrives-under-slow-save (a persisted publish is inside a parked Persistence.Save when the CONNACK is released). mid-packet-stall prefixes also end inside the remaining-length bytes. Behind the recording Persistence double sits, per case, its own map (5 in 8), the library's in-memory map (2 in 8) or mqtt.FileSystem on a scratch directory (1 in 8). One case in five runs on a session made the way VolatileSession makes it (the library's map, no checksum layer). Failed connects include Dialer errors which wrap context.Canceled / context.DeadlineExceeded. Failure read-fails-close-is-slow: the peer half-closes, the read routine's Close of the connection is held up, a writer which held the lock completes and a new Subscribe goes out meanwhile: it must be released by that loss too.",
     'C11': "TestC11CounterLap: 3-40 (thorough up to 530) Subscribe/Unsubscribe requests stay unanswered (every 3rd or 7th "
            "abandoned, or none), then 8200 answered requests make the 13-bit identifier counter lap them; answers for the open "
            "ones follow in forward, reverse or interleaved order. Also: connectFails (connection lost; the next attempt parks in the Dialer or in the handshake; 1-3 requests are "
